@@ -11,10 +11,61 @@ theorem dropWhile_zeros (k : Nat) (l : List Nat) :
 theorem stripNuls_append_zeros (s : List Nat) (k : Nat) : stripNuls (s ++ List.replicate k 0) = stripNuls s := by
   simp [stripNuls, List.reverse_append, dropWhile_zeros]
 
-/-- a value in the form decoding produces: padding holds 0, text has no trailing NUL -/
+theorem validUtf8_cons (b0 : Nat) (rest : List Nat) : validUtf8 (b0 :: rest) =
+    (if b0 < 0x80 then validUtf8 rest
+    else if 0xC2 ≤ b0 && b0 ≤ 0xDF then
+      match rest with
+      | b1 :: r => isCont b1 && validUtf8 r
+      | _ => false
+    else if 0xE0 ≤ b0 && b0 ≤ 0xEF then
+      match rest with
+      | b1 :: b2 :: r =>
+          (if b0 = 0xE0 then 0xA0 ≤ b1 && b1 ≤ 0xBF else if b0 = 0xED then 0x80 ≤ b1 && b1 ≤ 0x9F else isCont b1)
+            && isCont b2 && validUtf8 r
+      | _ => false
+    else if 0xF0 ≤ b0 && b0 ≤ 0xF4 then
+      match rest with
+      | b1 :: b2 :: b3 :: r =>
+          (if b0 = 0xF0 then 0x90 ≤ b1 && b1 ≤ 0xBF else if b0 = 0xF4 then 0x80 ≤ b1 && b1 ≤ 0x8F else isCont b1)
+            && isCont b2 && isCont b3 && validUtf8 r
+      | _ => false
+    else false) := by
+  conv => lhs; unfold validUtf8
+  rfl
+
+theorem validUtf8_append (a b : List Nat) (ha : validUtf8 a = true) (hb : validUtf8 b = true) :
+    validUtf8 (a ++ b) = true := by
+  fun_induction validUtf8 a with
+  | case1 => simpa using hb
+  | case2 b0 rest h0 ih => rw [List.cons_append, validUtf8_cons]; simp only [h0, if_true]; exact ih ha
+  | case3 b0 h0 h1 b1 r ih =>
+    simp only [Bool.and_eq_true] at ha
+    rw [List.cons_append, List.cons_append, validUtf8_cons]; simp only [h0, h1, if_false, if_true, Bool.and_eq_true]
+    exact ⟨ha.1, ih ha.2⟩
+  | case4 => cases ha
+  | case5 b0 h0 h1 h2 b1 b2 r ih =>
+    simp only [Bool.and_eq_true] at ha
+    rw [List.cons_append, List.cons_append, List.cons_append, validUtf8_cons]
+    simp only [h0, h1, h2, if_false, if_true, Bool.false_eq_true, Bool.and_eq_true]
+    exact ⟨⟨ha.1.1, ha.1.2⟩, ih ha.2⟩
+  | case6 => cases ha
+  | case7 b0 h0 h1 h2 h3 b1 b2 b3 r ih =>
+    simp only [Bool.and_eq_true] at ha
+    rw [List.cons_append, List.cons_append, List.cons_append, List.cons_append, validUtf8_cons]
+    simp only [h0, h1, h2, h3, if_false, if_true, Bool.false_eq_true, Bool.and_eq_true]
+    exact ⟨⟨⟨ha.1.1.1, ha.1.1.2⟩, ha.1.2⟩, ih ha.2⟩
+  | case8 => cases ha
+  | case9 => cases ha
+theorem validUtf8_zeros (k : Nat) : validUtf8 (List.replicate k 0) = true := by
+  induction k with
+  | zero => simp [validUtf8]
+  | succ k ih => rw [List.replicate_succ, validUtf8_cons]; simpa using ih
+
+/-- a value in the form decoding produces: padding holds 0, text has no trailing NUL (and, being a `str`, its encoding
+    is well-formed UTF-8) -/
 def Kind.canon : Kind → Val → Prop
   | .pad _, v => v = .int 0
-  | .text _, .str s => stripNuls s = s
+  | .text _, .str s => stripNuls s = s ∧ validUtf8 s = true
   | _, _ => True
 
 theorem take_append_exact {α} (a b : List α) (n : Nat) (h : a.length = n) : (a ++ b).take n = a := by
@@ -67,20 +118,16 @@ theorem unpack_pack_item (k : Kind) (v : Val) (bs rest : List Nat) (h : k.pack v
       simp only [Kind.pack] at h
       split at h
       · cases h
-      · rename_i hasc
-        split at h
-        · cases h
-        · rename_i hlen
-          simp only [Except.ok.injEq] at h
-          subst h
-          have hl : (s ++ List.replicate (n - s.length) 0).length = n := by simp; omega
-          refine ⟨?_, hl⟩
-          have hnl : ¬ ((s ++ List.replicate (n - s.length) 0 ++ rest).length < n) := by simp; omega
-          simp only [Kind.unpack, if_neg hnl, take_append_exact _ rest n hl, Kind.width]
-          have hany : (s ++ List.replicate (n - s.length) 0).any (· ≥ 128) = false := by
-            simp only [List.any_append, Bool.or_eq_false_iff]
-            exact ⟨by simpa using hasc, by simp⟩
-          simp only [hany, Bool.false_eq_true, if_false, stripNuls_append_zeros, hc]
+      · rename_i hlen
+        simp only [Except.ok.injEq] at h
+        subst h
+        have hl : (s ++ List.replicate (n - s.length) 0).length = n := by simp; omega
+        refine ⟨?_, hl⟩
+        have hnl : ¬ ((s ++ List.replicate (n - s.length) 0 ++ rest).length < n) := by simp; omega
+        simp only [Kind.unpack, if_neg hnl, take_append_exact _ rest n hl, Kind.width]
+        have hv : validUtf8 (s ++ List.replicate (n - s.length) 0) = true :=
+          validUtf8_append _ _ hc.2 (validUtf8_zeros _)
+        simp only [hv, Bool.not_true, Bool.false_eq_true, if_false, stripNuls_append_zeros, hc.1]
 
 /-- one canonical value per item -/
 def Table.Canon : Table → List Val → Prop
@@ -147,9 +194,7 @@ theorem pack_length (k : Kind) (v : Val) (bs : List Nat) (h : k.pack v = .ok bs)
       simp only [Kind.pack] at h
       split at h
       · cases h
-      · split at h
-        · cases h
-        · simp only [Except.ok.injEq] at h; subst h; simp [Kind.width]; omega
+      · simp only [Except.ok.injEq] at h; subst h; simp [Kind.width]; omega
 
 theorem encode_length (t : Table) (vs : List Val) (bs : List Nat) (h : t.encode vs = .ok bs) : bs.length = t.size := by
   induction t generalizing vs bs with
